@@ -90,7 +90,9 @@ def work(arg):
 
 
 def families(tier):
-    cfgs = [{}, {"skipws": False}, {"ws": " "}, {"skipws": False, "ws": " "}]  # the last: skipping off globally with a custom set, re-enabled by [skipws] rules
+    # {"skipws": False, "ws": " "}: skipping off globally with a custom set, re-enabled by [skipws] rules;
+    # {"ws": ""}: the EMPTY global set with skipping on - nothing may be skipped except under a rule's own ws modifier (seed C22-j)
+    cfgs = [{}, {"skipws": False}, {"ws": " "}, {"skipws": False, "ws": " "}, {"ws": ""}]
     for label, g in gramgen.frules(tier):
         # a line comment ends at '$': with ignore_case the regexes of the grammar must still be multi-line
         yield label, g, cfgs + ([{"ignore_case": True}] if any(r[0] == "Comment" and "#" in r[2][1] for r in g) else [])
